@@ -1058,10 +1058,11 @@ func (g *schemaGenerator) generateEnumType(t *schemas.Type, scope nameScope) (co
 	if len(t.Type) == 1 {
 		var err error
 		// The enum value table holds plain ints, so an integer enum keeps the plain int type:
-		// a sized type would never compare equal to the table entries.
+		// a sized type would never compare equal to the table entries. Likewise a string enum
+		// keeps the plain string type whatever its format annotation says: the table holds strings.
 		if enumType, err = codegen.PrimitiveTypeFromJSONSchemaType(
 			t.Type[0],
-			t.Format,
+			"",
 			false,
 			g.config.MinSizedInts && t.Type[0] != schemas.TypeNameInteger,
 			&t.Minimum,
